@@ -220,11 +220,12 @@ func metaOracle(run *Run) [][2]string {
 }
 
 func checkC03(e *core.Env) {
+	curEnv = e
 	e.SetRule("seeded scripts: request metadata (0..6 keys, repeated keys, hostile ASCII values, -bin values with arbitrary bytes), handler orders of SetHeader/SendHeader/SendMsg/SetTrailer/return(ok|error), client orders of Header/RecvMsg/Trailer, 0..3 duplicated grpc.Header/grpc.Trailer options, all kinds, in-process and both HTTP carriers; oracle: containment with exact value lists against the merge of the handler's successful calls, 'already sent' model; calibrated on the standard transport; distinct = (carrier, kind, handler op order, client op order, outcome)")
 	e.Assume("metadata domain: lower-case keys over [a-z0-9_.-] that HTTP/gRPC do not reserve, ASCII values without outer blanks")
 	cs := stdCarriers()
 	defer cs.Close()
-	n := e.N(1200, 9000)
+	n := e.N(1200, 20000)
 	e.Cases("meta", n, func(i int, r *rand.Rand) {
 		kind := Kind(i % 4)
 		for ci, c := range cs.list {
